@@ -262,6 +262,11 @@ pub enum K {
         uid: u64,
         ns: u64,
     },
+    /// a call's future was created (not yet polled) / dropped without ever being polled
+    Lazy {
+        uid: u64,
+        what: &'static str,
+    },
     Phase(&'static str),
     Note(String),
 }
